@@ -1,7 +1,9 @@
 ------------------------------- MODULE CodecDefs ------------------------------
 (* Definitions for property C19: wire codec and framing (DESIGN.md 6, C19).   *)
 (*                                                                            *)
-(* Seven decision tables, each with its abstract case space, the code-shaped  *)
+(* Decision tables, each with the classes of its abstract case space (the     *)
+(* case products themselves are in CodecCases, so that the monitor does not   *)
+(* have to build them), the code-shaped                                       *)
 (* `Expected` (what internal/jsonrpc2/messages.go, wire.go, mcp/content.go,   *)
 (* mcp/protocol.go, mcp/event.go, mcp/transport.go, mcp/streamable.go and     *)
 (* mcp/sse.go do, transcribed rule by rule) and the property predicates that  *)
@@ -20,12 +22,19 @@
 (*          the read loops of the real transports                             *)
 (*   Ar*    nil / empty / one element in every list- and  round trip of the   *)
 (*          map-valued member of every result type        arity (ArNilKept..) *)
+(*   Lt*    a decoded message outlives the buffer it was  Lifetime (RoundTrip *)
+(*          decoded from, however that buffer is reused   / Preserve later)   *)
+(*   Lb*    a burst of calls through a buffer-reusing     BurstIntact         *)
+(*          custom connection into a real session                             *)
+(*   Ww*    concurrent writers through one newline-       FramesIntact        *)
+(*          delimited connection whose io.Writer is not   (state machine:     *)
+(*          atomic                                         CodecWrite.tla)    *)
 (* plus aggregated arbitrary bytes into the decoders (NeverPanics).           *)
 (* Byte-level fidelity cannot be expressed here (TLC integers are 32 bit, a   *)
 (* JSON document is not a TLA+ value): the Go harness compares every field of *)
 (* the original and of the re-decoded / re-encoded message and reports the    *)
 (* RESULT of each comparison; the predicates below judge those results.       *)
-EXTENDS Integers, Sequences, FiniteSets, TLC
+EXTENDS Integers, Sequences, FiniteSets, TLC, CodecWriteDefs
 
 -----------------------------------------------------------------------------
 (* 1. Messages                                                                *)
@@ -59,9 +68,6 @@ Payloads == {"absent", "null", "emptyobj", "obj", "array", "scalar", "nested", "
 \* what the strings inside the message look like
 Flavors == {"plain", "unicode", "newline", "ssetext", "large"}
 
-MsgCases ==
-  { [dir |-> d, kind |-> k, id |-> i, method |-> m, payload |-> p, flavor |-> f, framing |-> fr] :
-      d \in Dirs, k \in Kinds, i \in IdClasses, m \in Methods, p \in Payloads, f \in Flavors, fr \in Framings }
 
 ValidMsg(c) ==
   /\ (c.kind = "notif") <=> (c.id = "absent")
@@ -70,7 +76,6 @@ ValidMsg(c) ==
   /\ c.kind \in {"result", "errordata"} => c.payload # "absent"
   /\ c.kind \in {"error", "errwrapped", "errplain"} => c.payload = "absent"
   /\ c.kind \in {"errwrapped", "errplain"} => c.dir = "enc"
-MsgCaseSet == {c \in MsgCases : ValidMsg(c)}
 
 \* class of the decoded message
 WantCls(c) == CASE c.kind = "call" -> "call" [] c.kind = "notif" -> "notif"
@@ -137,9 +142,6 @@ WErrors  == {"absent", "obj", "objdata", "null", "str"}
 WCasings == {"exact", "jsonrpc", "id", "method", "params", "result", "error",
              "error.code", "error.message", "error.data"}
 
-WireCases ==
-  { [ver |-> v, id |-> i, method |-> m, params |-> p, result |-> r, error |-> e, casing |-> cs] :
-      v \in WVers, i \in WIds, m \in WMethods, p \in WParams, r \in WResults, e \in WErrors, cs \in WCasings }
 HasMember(c, name) ==
   CASE name = "exact" -> TRUE
     [] name = "jsonrpc" -> c.ver # "absent"
@@ -150,7 +152,6 @@ HasMember(c, name) ==
     [] name = "error" -> c.error # "absent"
     [] name \in {"error.code", "error.message"} -> c.error \in {"obj", "objdata"}
     [] name = "error.data" -> c.error = "objdata"
-WireCaseSet == {c \in WireCases : HasMember(c, c.casing)}
 
 \* the wire as a case-sensitive decoder sees it: a member whose name differs in case is not there
 Effective(c) ==
@@ -229,15 +230,11 @@ Metas   == {"none", "flat", "nested"}
 Nesteds == {"na", "nil", "empty", "one", "mixed", "zeros"}
 Aritys  == {"single", "nil", "empty", "one", "two"}
 
-ValCases ==
-  { [cont |-> ct, ckind |-> k, fill |-> fl, meta |-> mt, nested |-> n, arity |-> a, flavor |-> f] :
-      ct \in Containers, k \in CKinds, fl \in Fills, mt \in Metas, n \in Nesteds, a \in Aritys, f \in Flavors }
 ValidVal(c) ==
   /\ c.ckind \in Allowed(c.cont)
   /\ (c.cont \in ListContainers) <=> (c.arity # "single")
   /\ (c.ckind = "tool_result") <=> (c.nested # "na")
   /\ c.arity \in {"nil", "empty"} => (c.ckind = "text" /\ c.fill = "zero" /\ c.meta = "none" /\ c.flavor = "plain")
-ValCaseSet == {c \in ValCases : ValidVal(c)}
 
 \* Outcome: [ok, lost, missing]: decoding the encoding succeeded; names of members that did not
 \* survive; required members (text / data / content / resource text-or-blob) absent or null in the encoding.
@@ -281,13 +278,11 @@ ReqMember(t) ==
 \* how the application left the member: nil, empty (non-nil), or with one element / a non-empty value
 ReqFills == {"nil", "empty", "one"}
 Protos == {"2025-11-25", "latest"}
-ReqCases == { [type |-> t, fill |-> f, proto |-> p] : t \in ReqTypes, f \in ReqFills, p \in Protos }
 \* registries (list results) are either empty or not: no nil/empty distinction
 \* server-initiated requests (roots/list, sampling) do not exist on protocol 2026-07-28
 ValidReq(c) == /\ (c.type \in {"ListToolsResult", "ListPromptsResult", "ListResourcesResult",
                                "ListResourceTemplatesResult", "ListRootsResult", "TextContent"}) => c.fill # "empty"
                /\ c.type \in {"ListRootsResult", "CreateMessageWithToolsResult"} => c.proto = "2025-11-25"
-ReqCaseSet == {c \in ReqCases : ValidReq(c)}
 
 \* Outcome [sent, present, nonnull]: sent \in {"result", "error", "none"}.
 \* Code shape: server.go replaces nil by empty for list results, CallToolResult.content,
@@ -331,7 +326,6 @@ VcTable ==
     <<"result:ListPromptsResult", "prompts">>, <<"result:ListPromptsResult", "nextCursor">>,
     <<"result:ListResourcesResult", "resources">>, <<"result:ListResourcesResult", "nextCursor">>,
     <<"result:CompleteResult", "completion">>, <<"result:CompleteResult", "_meta">> }
-VcCaseSet == { [target |-> p[1], member |-> p[2]] : p \in VcTable }
 
 \* Code shape: every one of these decoders is built on internal/json, which switches off
 \* case-insensitive struct-field matching (DontMatchCaseInsensitiveStructFields).
@@ -388,8 +382,6 @@ FrPoss   == {"first", "after"}
 \* batches are legal JSON-RPC below 2025-06-18 and refused from then on
 FrProtos == {"2025-03-26", "2025-11-25"}
 
-FrCases == { [shape |-> s, pad |-> p, term |-> t, path |-> pa, pos |-> po, proto |-> pr] :
-               s \in FrShapes, p \in FrPads, t \in FrTerms, pa \in FrPaths, po \in FrPoss, pr \in FrProtos }
 ValidFr(c) ==
   /\ (c.term # "na") <=> (c.path \in FrNdPaths)
   /\ c.shape \in FrTruncated => c.term \in {"eof", "na"}        \* nothing can follow an unfinished JSON text
@@ -400,7 +392,6 @@ ValidFr(c) ==
   \* the streamable client decodes responses: the frame answers a call of an established session
   /\ c.path \in {"http.client.json", "http.client.sse"} => c.pos = "after"
   /\ c.path \in {"sse.client.read", "sse.server.post"} => c.proto = "2025-03-26"
-FrCaseSet == {c \in FrCases : ValidFr(c)}
 
 \* every member of the frame is a message the reader accepts, and a batch is not empty
 FrWellFormed(s) == s \in {"obj-msg", "obj-notif", "obj-resp", "arr-one", "arr-two", "arr-notifs", "arr-resp", "arr-huge", "arr-dupid"}
@@ -488,10 +479,7 @@ ArMrtr == {"CallToolResult", "GetPromptResult", "ReadResourceResult"}
 ArRts  == {"complete", "input_required"}
 \* bare: every other member left zero; full: the other members of the result filled in
 ArFills == {"bare", "full"}
-ArCases == { [type |-> r[1], member |-> r[2], arity |-> a, rt |-> rt, fill |-> f] :
-               r \in ArTable, a \in ArArities, rt \in ArRts, f \in ArFills }
 ValidAr(c) == c.rt = "input_required" => c.type \in ArMrtr
-ArCaseSet == {c \in ArCases : ValidAr(c)}
 
 ArWire(c) == LET r == ArRow(c.type, c.member) IN
              CASE c.arity = "nil" -> r[3] [] c.arity = "empty" -> r[4] [] c.arity = "one" -> r[5]
@@ -519,4 +507,88 @@ ArOthersKept(c, o) == o.ok => o.others
 ArNilKept(c, o)   == (o.ok /\ ArDistinguished(c.type, c.member)) => (o.isnil <=> (c.arity = "nil"))
 HoldsAr(c, o) == ArDecodes(c, o) /\ ArSameLen(c, o) /\ ArSameElems(c, o) /\ ArOthersKept(c, o) /\ ArNilKept(c, o)
 ArLead(c) == FALSE
+
+-----------------------------------------------------------------------------
+(* 9. Lifetime of a decoded message                                           *)
+(* "Decoding a valid wire message and re-encoding it preserves ..." is owed   *)
+(* by the decoded MESSAGE, not by the moment right after the decode call: a   *)
+(* reader hands the decoder a buffer, gets a message, and uses the buffer for *)
+(* the next message (bufio.Scanner.Bytes, ReadSlice, a pooled or fixed read   *)
+(* buffer, a ring) while the first message is still queued or being handled.  *)
+(* Case: message A is decoded from a buffer; the buffer is reused; then A is  *)
+(* compared member by member with what was on the wire, and re-encoded.       *)
+
+LtKinds    == {"call", "notif", "result", "error", "errordata"}
+LtIds      == {"absent", "small", "int>2^53", "str-ascii", "str-unicode"}
+LtPayloads == {"absent", "obj", "array", "nested", "content-text", "bignum"}
+\* who owns the buffer:
+\*   decode   the caller of jsonrpc.DecodeMessage (the exported entry for authors of transports)
+\*   batch    the caller of readBatch (a JSON array of messages; the members are sub-slices of the input)
+\*   scanner  a bufio.Scanner whose token is handed to jsonrpc.DecodeMessage (a custom newline-delimited Connection)
+\*   ioconn   ioConn's own stream decoder (IOTransport, stdio, in-memory)
+\*   sse      scanEvents; the data of an event is handed to jsonrpc.DecodeMessage as the SDK's clients do
+LtPaths    == {"decode", "batch", "scanner", "ioconn", "sse"}
+\* what happens to the buffer after A has been decoded from it:
+\*   next     the next message (same class, other values) is decoded from the same bytes
+\*   shifted  the next message is decoded from the same backing array at another offset (ring / compacting buffer)
+\*   zero     the buffer is wiped (returned to a pool)
+\*   stream   the reader that owns the buffer reads on: several buffers' worth of further messages
+LtReuses   == {"next", "shifted", "zero", "stream"}
+
+ValidLt(c) ==
+  /\ (c.kind = "notif") <=> (c.id = "absent")
+  /\ (c.kind = "error") <=> (c.payload = "absent")
+  /\ (c.path \in {"decode", "batch"}) <=> (c.reuse # "stream")
+
+\* The abstract decoder: every member of the decoded message is a value of its own ("own": converted or
+\* copied while decoding) or a view of the input buffer ("view").  The members that messages.go keeps as raw
+\* JSON text (json.RawMessage) are the ones that CAN be views: params, result, error.data.
+LtMembers == {"idType", "idValue", "method", "params", "result", "errCode", "errMsg", "errData"}
+LtRaw(k) == CASE k \in {"call", "notif"} -> {"params"} [] k = "result" -> {"result"}
+              [] k = "errordata" -> {"errData"} [] OTHER -> {}
+LtDecoded(c, aliasing) == [m \in LtMembers |-> IF aliasing /\ m \in LtRaw(c.kind) THEN "view" ELSE "own"]
+\* after the buffer has been reused a view reads whatever is in the buffer now: the member is no longer A's
+LtSurvive(c, aliasing) == [m \in LtMembers |-> LtDecoded(c, aliasing)[m] = "own"]
+
+\* Outcome [cls, later, enc, f, g]: class of A as decoded; the message decoded after A from the reused buffer
+\* is intact too; A re-encodes; f: members of A (the Go value, read after the reuse) equal to the wire's;
+\* g: members of A's re-encoding equal to the wire's.
+\* Code shape: internal/json.Unmarshal decodes through a Decoder, which copies its input into a read buffer of
+\* its own, and RawMessage members are copied out of that: nothing in a decoded message is a view.
+LtOutcome(c, aliasing) == [cls |-> WantCls(c), later |-> TRUE, enc |-> TRUE,
+                           f |-> LtSurvive(c, aliasing), g |-> LtSurvive(c, aliasing)]
+ExpectedLt(c) == LtOutcome(c, FALSE)
+
+LtClsOK(c, o)       == o.cls = WantCls(c)
+LtValueOK(c, o, m)  == LtClsOK(c, o) => o.f[m]                    \* RoundTrip.Value: A is still A
+LtEncodes(c, o)     == LtClsOK(c, o) => o.enc
+LtReencOK(c, o, m)  == (LtClsOK(c, o) /\ o.enc) => o.g[m]         \* Preserve: Encode(A) ~ the wire
+LtLaterOK(c, o)     == o.later
+HoldsLt(c, o) == /\ LtClsOK(c, o) /\ LtEncodes(c, o) /\ LtLaterOK(c, o)
+                 /\ \A m \in LtMembers : LtValueOK(c, o, m) /\ LtReencOK(c, o, m)
+LtLead(c) == FALSE
+
+-----------------------------------------------------------------------------
+(* 10. A burst of calls through a buffer-reusing connection into a session    *)
+(* A custom mcp.Connection (bufio.Scanner + jsonrpc.DecodeMessage, the plain  *)
+(* way to write one) feeds a real ServerSession: initialize, initialized and  *)
+(* then n tools/call in one burst.  Every call must be executed with the      *)
+(* arguments that were on the wire under ITS id.                              *)
+LbSizes   == {"few", "many"}     \* few: the burst fits the reader's buffer; many: the buffer is recycled several
+                                 \* times while the first calls are still pending
+LbIds     == {"int", "str"}
+LbFlavors == {"plain", "unicode"}
+LbHolds   == {"held", "free"}    \* held: the handlers finish only after the whole burst has been read
+                                 \* (handlers slower than the reader; pinned with a gate); free: as they come
+\* Outcome [n, answered, intact]: calls in the burst; ids of the burst answered exactly once; results that
+\* echo exactly the arguments sent under their id.
+ExpectedLb(c, n) == [n |-> n, answered |-> n, intact |-> n]
+BurstAnswered(c, o) == o.answered = o.n
+BurstIntact(c, o)   == o.intact = o.n
+HoldsLb(c, o) == BurstAnswered(c, o) /\ BurstIntact(c, o)
+
+-----------------------------------------------------------------------------
+(* 11. Concurrent writers through one newline-delimited connection: the case  *)
+(* attributes and the property FramesIntact are in CodecWriteDefs (extended   *)
+(* above), the state machine in CodecWrite.tla.                               *)
 =============================================================================
